@@ -68,6 +68,10 @@ def Harmless (n : Nat) : Step → Prop
   | .close _ => True
   | .openrw _ => True
   | .writeTmp _ => True
+  | .tmpOpen => True
+  | .tmpWrite _ => True
+  | .tmpSync => True
+  | .tmpClose => True
   | .create k => k ≠ n
   | .setRaw k _ => k ≠ n
   | .remove k => k ≠ n
@@ -84,6 +88,10 @@ theorem points_step {d : Disk} {n : Nat} {f : MFile} {s : Step} (hs : Harmless n
   | close k => exact ⟨hc, hf⟩
   | openrw k => exact ⟨hc, hf⟩
   | writeTmp k => exact ⟨hc, hf⟩
+  | tmpOpen => exact ⟨hc, hf⟩
+  | tmpWrite k => exact ⟨hc, hf⟩
+  | tmpSync => exact ⟨hc, hf⟩
+  | tmpClose => exact ⟨hc, hf⟩
   | create k =>
     have hne : n ≠ k := fun e => hs e.symm
     exact ⟨hc, by simp only [Disk.step]; rw [file_setFile_ne d hne]; exact hf⟩
